@@ -122,9 +122,12 @@ func ws(r *rng) string {
 	case 2:
 		return "\t"
 	case 3:
-		return " /* c */ "
+		// block comments in every shape: stars before the terminator (odd and even runs), nothing but stars, a slash right
+		// after the opener, line-comment markers and quotes inside, several lines
+		return " " + r.pick([]string{"/* c */", "/* c */", "/** doc **/", "/***/", "/****/", "/**/", "/* a ** b **/", "/* a * b */", "/*/ x */",
+			"/* // not a line comment */", "/* \"quoted\" 'too' */", "/* two\n lines ***/", "/** x */"}) + " "
 	case 4:
-		return " // line\n"
+		return " " + r.pick([]string{"// line", "// line", "//", "/// three", "// has /* inside", "// ends with */"}) + "\n"
 	}
 	return " "
 }
